@@ -4,6 +4,9 @@
      per root parser   print_config request   parser.print_config           _actions.py:256-290
                        last argv              parser.args (and sub-parsers) _core.py:447, read at _actions.py:414
                        --print_shtab added    ShtabAction in parser._actions _completions.py:39-41
+                       stored default of d    action.sub_add_kwargs["default"] of a dataclass-typed option that was
+                                              added from a signature (non-empty sub_add_kwargs, handed to
+                                              adapt_typehints by reference), written at _typehints.py:1052-1054
      process wide      parse_kwargs           ContextVar, set / never reset  _actions.py:676-680
                        subclass_arg_parser    ContextVar, set / never reset  _typehints.py:438-442
                        dump_kwargs            ContextVar, set / never reset  _typehints.py:1341-1344
@@ -12,12 +15,14 @@
 
    step s op = commit (writes) s, out   where (out, writes) = exec (view s op) op:
    `view` is everything an operation READS from the carried state before it has written it itself
-   (request, shtab flag of the target parser, help_skip); `writes` is everything it leaves behind.
+   (request, shtab flag and stored default of d of the target parser, help_skip); `writes` is everything it
+   leaves behind.
    parse_kwargs is read inside parse_args (sub-command call, _actions.py:673) but only after the same
    call has set it: it is threaded locally (cv_pk) and starts from the value written on entry.
 
    Everything else an answer depends on (the values themselves, help texts, messages) is a function
-   of (declaration, op) only and is not represented: `out` records which path the call took. *)
+   of (declaration, op) only and is not represented: `out` records which path the call took — and the value of
+   d, the one value that the carried state can change. *)
 From JV Require Import Lib.Base.
 
 Inductive kind := KInt | KStr.
